@@ -254,6 +254,8 @@ theorem mem_fp {f : Feat} {a : Nat} : a ∈ fp f ↔
 /-- every array the feature points into is allocated -/
 def Valid (st : Store) (f : Feat) : Prop := ∀ a ∈ fp f, a < st.length
 
+instance (st : Store) (f : Feat) : Decidable (Valid st f) := by unfold Valid; infer_instance
+
 /-- from a step of one of the feature's slices to a step of the feature -/
 theorem lift_step {f f' : Feat} {st st' : Store} {G G' : List Nat} (hv : Valid st f)
     (h : Step G st st' G') (hG : ∀ a ∈ G, a ∈ fp f) (hf' : ∀ a ∈ fp f', a ∈ fp f ∨ a ∈ G') :
@@ -856,6 +858,10 @@ def Proper (f : Feat) : Prop :=
   | .relation => f.ids = [] ∧ f.polygons = none ∧ f.keys = none ∧ f.values = none ∧ f.sorted = false
   | .collection => f.ids = [] ∧ f.polygons = none ∧ f.members = none
 
+instance (f : Feat) : Decidable (Proper f) := by
+  unfold Proper
+  split <;> infer_instance
+
 theorem cells_alloc (st : Store) (cs : List Cell) :
     cells (alloc st cs).1 (some (alloc st cs).2) = some cs := by
   simp [cells, alloc]
@@ -1058,7 +1064,7 @@ theorem Disj.symm {f g : Feat} (h : Disj f g) : Disj g f := fun a hg hf => h a h
 
 /-- the features at different positions of the list share no array -/
 def SepIdx (l : List Feat) : Prop :=
-  ∀ i j x y, i ≠ j → l[i]? = some x → l[j]? = some y → Disj x y
+  ∀ (i j : Nat) (x y : Feat), i ≠ j → l[i]? = some x → l[j]? = some y → Disj x y
 
 /-- after an operation through `r`, `r'` is still disjoint from every allocated `x` that `r` was disjoint from -/
 theorem disj_after {st st' : Store} {r r' x : Feat} (hs : Step (fp r) st st' (fp r'))
@@ -1111,7 +1117,8 @@ theorem Sep2.set {st st' : Store} {l1 l2 : List Feat} {i : Nat} {r r' : Feat} (h
     · exact hs.valid
   · intro x hx
     exact valid_grow hs.grow (h.valid2 x hx)
-  · intro a b x y hab hx hy
+  · unfold SepIdx
+    intro a b x y hab hx hy
     rw [List.getElem?_set] at hx hy
     by_cases ha : i = a
     · subst ha
@@ -1152,7 +1159,8 @@ theorem Sep2.push {st st' : Store} {l1 l2 : List Feat} {c : Feat} (h : Sep2 st l
       exact hs.valid
   · intro x hx
     exact valid_grow hs.grow (h.valid2 x hx)
-  · intro a b x y hab hx hy
+  · unfold SepIdx
+    intro a b x y hab hx hy
     rw [List.getElem?_append] at hx hy
     by_cases ha : a < l1.length
     · simp only [ha, ↓reduceIte] at hx
